@@ -80,8 +80,8 @@ static int nobs;
 /*
  * The three option loops.  Each returns the final optind.  limit: stop
  * calling GETOPT (abandon the loop) once that many options were handled;
- * set_reset: request a reset first.  Every GETOPT_* label must be on a line
- * of its own (the macros use __LINE__).
+ * set_reset: request a reset first.  GETOPT_* labels are on lines of their own
+ * (the macros use __LINE__), except the first label of run_T3.
  */
 static int
 run_T1(int argc, char ** argv, int limit, int set_reset)
@@ -171,8 +171,8 @@ run_T3(int argc, char ** argv, int limit, int set_reset)
 	if (set_reset)
 		optreset = 1;
 	while ((ch = GETOPT(argc, argv)) != NULL) {
-		GETOPT_SWITCH(ch) {
-		GETOPT_MISSING_ARG:
+		/* the first label shares the source line of GETOPT_SWITCH on purpose: the line-number based table building has to cope (seed C18-8) */
+		GETOPT_SWITCH(ch) { GETOPT_MISSING_ARG:
 			REC(REF_GO_MISSING);
 			break;
 		GETOPT_OPTARG("-x"):
